@@ -52,7 +52,7 @@ func c19CheckProp(c C19Prop, o *vt.Obs) error {
 	if err != nil {
 		return fmt.Errorf("HARNESS: world: %w", err)
 	}
-	net, err := c19NewNet(w, c.Pools, nil, false, false)
+	net, err := c19NewNet(w, c.Pools, nil, false, false, c.Lim)
 	defer net.close()
 	if err != nil {
 		return fmt.Errorf("HARNESS: network: %w", err)
